@@ -179,7 +179,7 @@ def vals(res) -> List[List[tuple]]:
     return [[(p.mu, p.sigma) for p in t] for t in res]
 
 
-def model_for(cfg, call):
+def model_for(cfg, call, teams=None):
     """A freshly constructed model - which, when the case carries a 'prelude', has first been through ONE call that did not complete
     normally (vf/failing.py): the properties quantify over models as constructed, whatever was called on them before."""
     pre = call.get("prelude") if call else None
@@ -188,13 +188,17 @@ def model_for(cfg, call):
     from vf import failing
 
     m, trip = failing.tripwire_model(cfg)
-    failing.run_failing(m, pre, trip)
+    if pre.get("kind") == "mirror":
+        if teams is not None:
+            failing.run_mirror(m, cfg, teams, {k: v for k, v in call.items() if k != "prelude"}, pre)
+    else:
+        failing.run_failing(m, pre, trip)
     return m
 
 
 def rate_values(cfg, teams, call, ctx=None):
     """Fresh model + fresh ratings -> list of list of (mu, sigma)."""
-    m = model_for(cfg, call)
+    m = model_for(cfg, call, teams)
     objs = mk_teams(m, teams, clone_ids=call.get("clone_ids"))
     return vals(rate(m, objs, call, ctx))
 
